@@ -18,10 +18,13 @@ Open Scope Z_scope.
 (* (a) data sits in pendingData while the reader is between its failed test and the select, or parked
        => the token is in recvNotifyCh, or the event loop is between `add` and `asyncNotify`;
    (b) the stream is not open => closeNotifyCh is closed, or the closer is between its CAS and
-       safeCloseNotify;   (c) Session.Close has visited the stream => closeNotifyCh is closed *)
+       safeCloseNotify (halfClose: ppc; Stream.close: lc; a Stream.Close deferred because an OnData
+       callback is in progress: dpc);
+   (c) Session.Close has visited the stream => closeNotifyCh is closed — UNCONDITIONALLY, whatever the
+       state of the stream: it is the only event that releases a reader parked inside such an OnData *)
 Theorem C11_no_lost_notify : forall evs, let s := run evs init in
   ((0 < pend s)%nat -> rd_waiting (rd s) = true -> token s = true \/ epc s = true) /\
-  (ss s <> SOpen -> closeN s = true \/ ppc s = true \/ lc_mid_open (lc s) = true) /\
+  (ss s <> SOpen -> closeN s = true \/ ppc s = true \/ lc_mid_open (lc s) = true \/ dpc s = true) /\
   (sclosing s = true -> closeN s = true).
 Proof. exact no_lost_notify. Qed.
 Print Assumptions C11_no_lost_notify.
@@ -35,6 +38,26 @@ Theorem C11_wake_or_helper : forall evs, let s := run evs init in
   wake_enabled s = true \/ helper_pending s = true.
 Proof. exact wake_or_helper. Qed.
 Print Assumptions C11_wake_or_helper.
+
+(* the death of the session releases a parked reader in EVERY stream state (open, closed, half-closed
+   by the peer, half-closed by a deferred local Close) *)
+Theorem C11_session_close_releases : forall evs, let s := run evs init in
+  rd s = RParked -> sclosing s = true -> wake_enabled s = true.
+Proof. exact session_close_releases. Qed.
+Print Assumptions C11_session_close_releases.
+
+(* FULL statement of "a read returns when either end closes the stream" *)
+Definition C11_close_releases_full : Prop :=
+  forall evs, let s := run evs init in
+    rd s = RParked -> ss s <> SOpen -> wake_enabled s = true \/ helper_pending s = true.
+
+(* TRUE of the repaired code (fix: a Stream.Close that finds an OnData callback in progress calls
+   safeCloseNotify after its CAS).  Before the repair it was refuted: that path only marked the stream
+   half-closed, a read parked inside the callback was released by nothing but the death of the session
+   (regression scenarios ondata-deferred-close-only / -peer-close of the harness). *)
+Theorem C11_close_releases : C11_close_releases_full.
+Proof. exact close_releases. Qed.
+Print Assumptions C11_close_releases.
 
 (* ... and a ready branch stays ready, and the reader parked, under every step of every other thread *)
 Theorem C11_wake_stable : forall s e, rd s = RParked -> wake_enabled s = true -> is_reader_ev e = false ->
@@ -82,6 +105,42 @@ Theorem C11_session_waiters : forall evs, let s := run2 evs init2 in
 Proof. exact session_waiters. Qed.
 Print Assumptions C11_session_waiters.
 
+(* the socket-write hand-off (send loop vs. fast-path writers): a send loop waiting for the write token
+   has a value in notifyContinueWriteCh or the holder is about to release/notify; writers exclude each other *)
+Theorem C11_handoff_no_lost_wake : forall c evs, let s := runh evs (inith c) in
+  (sl s = SLSpin -> htok s = true \/ fp s = FPHold \/ fp s = FPNotify) /\
+  (hwriting s = true <-> (sl s = SLWrite \/ fp s = FPHold)) /\
+  ~ (sl s = SLWrite /\ fp s = FPHold).
+Proof. exact handoff. Qed.
+Print Assumptions C11_handoff_no_lost_wake.
+
+(* FULL statement "wakeUpPeer / hotRestart (hence Flush, Stream.Close) never block" *)
+Definition C11_wakeup_never_blocks_full : Prop := forall c evs, fp (runh evs (inith c)) <> FPBlocked.
+
+(* FALSE of the faithful model: the slow path `s.sendCh <- sendReady{...}` has no select.  Witness
+   (capacity 2; the real one is 4096): the peer stops reading, the send loop blocks in write holding
+   `writing`, waitForSend callers time out but leave their items in sendCh until it is full, then a
+   fast-path CAS fails.  Reproduced on the real code (scenario flush-sendch-full). *)
+Theorem C11_wakeup_never_blocks_refuted : ~ C11_wakeup_never_blocks_full.
+Proof. exact wakeup_never_blocks_refuted. Qed.
+Print Assumptions C11_wakeup_never_blocks_refuted.
+
+(* strongest provable form: the slow-path send blocks ONLY when sendCh is full while another writer
+   holds `writing` ... *)
+Theorem C11_partial_slow_send_blocks_only_when_full : forall s e,
+  fp s <> FPBlocked -> fp (steph s e) = FPBlocked -> e = HFpTry /\ hwriting s = true /\ sq s = scap s \/ (scap s < sq s)%nat.
+Proof. exact slow_send_blocks_only_when_full. Qed.
+Print Assumptions C11_partial_slow_send_blocks_only_when_full.
+
+(* ... and then, with the send loop blocked on a full socket, NOTHING but the peer reading again changes
+   the state: the caller is blocked for as long as the peer stays stopped (no timeout anywhere) *)
+Theorem C11_stuck_until_peer_resumes : forall s e, stuckh s = true -> (forall b, e <> HSock b) -> steph s e = s.
+Proof. exact stuck_until_peer_resumes. Qed.
+Print Assumptions C11_stuck_until_peer_resumes.
+
+Example C11_example_stuck_reachable : stuckh (runh witness_sendch_full (inith 2)) = true.
+Proof. exact stuck_reachable. Qed.
+
 (* non-vacuity: the race the property is about — data arrives after the reader's failed test and
    before it parks; then a deadline case; then peer close *)
 Example C11_example_race :
@@ -97,6 +156,18 @@ Proof. vm_compute. repeat split. Qed.
 Example C11_example_close :
   let s := run [RCall 8; RStep; RStep; RStep; EAdd 3; PClose1; EFin; PClose2; RWake BClose; RStep] init in
   res s = Some RErrEOS /\ rbuf s = 3%nat.
+Proof. vm_compute. repeat split. Qed.
+
+(* the seeded history: reader parked inside OnData, deferred local Close, then the session dies *)
+Example C11_example_deferred_close_then_session_dies :
+  let s := run [RCall 8; RStep; RStep; RStep; EAdd 4; EFin; RWake BNotify; RStep; LDefer1; SClose; RWake BClose; RStep] init in
+  res s = Some RErrEOS /\ dpc s = true /\ closeN s = true.
+Proof. vm_compute. repeat split. Qed.
+
+(* regression: the deferred Close alone now releases the reader parked inside OnData *)
+Example C11_regression_deferred_close_releases :
+  let s := run [RCall 8; RStep; RStep; RStep; EAdd 4; EFin; RWake BNotify; RStep; LDefer1; LDefer2; RWake BClose; RStep] init in
+  res s = Some RErrEOS.
 Proof. vm_compute. repeat split. Qed.
 
 Example C11_example_flush :
